@@ -39,6 +39,7 @@ RULE = (
     "distinct = (solver, continue flag, scene kind, injected site group, first/inner occurrence, reaction class); "
     "non-trivial = at least one injected fault actually fired or one feature differential executed"
 )
+RULE += " A third of the contact sessions use a prox parameter beyond the contraction range (prox_scaling in [2, 4], legal): the contact fixed point then fails organically as soon as a contact closes, and the same oracle judges the solver's reaction."
 COMPONENTS = {
     "real": ["all eight solvers", "fsolve", "every fixed-point loop (through the guarded decision hook)", "scipy / scipy_dae back ends (run for real up to the stop time)"],
     "stub": ["tqdm -> SimProgress (step seam)", "warnings / stdout captured (warnings are the observable)"],
